@@ -55,8 +55,11 @@ def pick_runs(unit_no, ncases, scheds, tier, cfgname):
     if tier == "quick":
         a = [plain[(unit_no * 7 + i * 5) % len(plain)] for i in range(10)]
         b = [canc[(unit_no * 11 + i * 3) % len(canc)] for i in range(6)] if canc else []
+    elif unit_no % 4 == 0:
+        a, b = plain, canc          # every schedule of the model
     else:
-        a, b = plain, canc
+        a = [plain[(unit_no * 7 + i * 5) % len(plain)] for i in range(24)]
+        b = [canc[(unit_no * 11 + i * 3) % len(canc)] for i in range(24)] if canc else []
     runs += [(0, m, c) for m, c in dict.fromkeys(a + b)]
     for k in range(1, ncases):
         for i in range(2 if tier == "quick" else 6):
@@ -248,12 +251,27 @@ def run(tier):
                           f"{(r.get('stderr_head', '') + r['stderr'])[-300:]}", {"wit": j["wit"], "runs": j["runs"]})
     stats["borrow_world_tasks"] = borrow_part(wd, cli, vhost_dir, envs, cmd, out, trace, owner)
     stats["events"] = len(trace)
-    tp = os.path.join(wd, "trace.ndjson")
-    write_ndjson(tp, trace)
-    t = tlc("rt/Trace_AsyncCall", "rt/Trace_AsyncCall", workers=1, wd=wd, env={"TRACE": tp}, dfs=True, xmx="12g", timeout=3400)
-    if t.tagged.get("REJECTED"):
-        raise ToolError(f"Trace_AsyncCall did not consume the whole log: {t.tagged['REJECTED'][:1]}")
-    for b in t.tagged.get("BREACH", []):
+    # the log is validated in pieces of at most ~1.5M events, cut between tasks (TLC holds the whole piece in memory)
+    cuts, last = [0], 0
+    for i, row in enumerate(trace):
+        if row["ev"] == "task.begin" and i - last >= 1500000:
+            cuts.append(i)
+            last = i
+    cuts.append(len(trace))
+    breaches, tstates, tgen = [], 0, 0
+    for a_, b_ in zip(cuts, cuts[1:]):
+        if a_ == b_:
+            continue
+        tp = os.path.join(wd, f"trace_{a_}.ndjson")
+        write_ndjson(tp, trace[a_:b_])
+        t = tlc("rt/Trace_AsyncCall", "rt/Trace_AsyncCall", workers=1, wd=wd, env={"TRACE": tp}, dfs=True, xmx="12g", timeout=3400)
+        if t.tagged.get("REJECTED"):
+            raise ToolError(f"Trace_AsyncCall did not consume the whole log: {t.tagged['REJECTED'][:1]}")
+        tstates += t.distinct
+        tgen += t.generated
+        breaches += [dict(b, at=b["at"] + a_) for b in t.tagged.get("BREACH", [])]
+        os.remove(tp)
+    for b in breaches:
         who, run_desc, keypart, ctx = owner[b["at"] - 1]
         what = b["what"]
         if "(harness" in what:
@@ -263,8 +281,10 @@ def run(tier):
     shutil.rmtree(os.path.join(wd, "units"), ignore_errors=True)
     write_ndjson(os.path.join(wd, "violations.ndjson"), [{"key": k, "desc": d} for k, d, _ in out.violations])
     rc, unlisted = out.finish()
+    if os.environ.get("VERIF_C08_ONLY"):
+        return rc                      # a partial development run writes no evidence
     write_evidence(PID, tier, "model_checking", {
-        "states": gs.distinct + g.distinct + t.distinct, "transitions": gs.generated + g.generated + t.generated,
+        "states": gs.distinct + g.distinct + tstates, "transitions": gs.generated + g.generated + tgen,
         "traces_validated_against_impl": stats["tasks"], "samples": trace[:40], **stats,
         "schedules_of_the_model": {f"{k[0]} calls, imports {'async' if k[1] else 'sync'}, export {'async' if k[2] else 'sync'}": len(v) for k, v in sched.items()},
         "spec": "specs/rt/AsyncCall.tla (Apply, invariants), MC_AsyncCall.tla (all guests x all schedules; GEN of schedules), Trace_AsyncCall.tla; values: "
